@@ -19,6 +19,8 @@ mod kzg10;
 #[cfg(feature = "alloc")]
 pub(crate) use kzg10::AggregateProof;
 pub(crate) use kzg10::Commitment;
+#[cfg(feature = "verif")]
+pub(crate) use kzg10::proof::Proof as KzgProof;
 #[cfg(feature = "alloc")]
 pub use kzg10::PublicParameters;
 #[cfg(feature = "alloc")]
